@@ -1,0 +1,13 @@
+//go:build verif
+
+package fractal
+
+import "massnet.org/mass/fractal/connection"
+
+// VerifCollectorPoolConnOptions lets the verification harness give the connections a pool accepts
+// other connection options (e.g. a short keepalive interval) than the built-in defaults.
+func VerifCollectorPoolConnOptions(opts ...connection.Option) CollectorPoolOption {
+	return newCollectorPoolOptionFunc(func(options *collectorPoolOptions) {
+		options.connOptions = append(options.connOptions, opts...)
+	})
+}
